@@ -236,6 +236,18 @@ Definition all_done (s : state) : bool := forallb is_done (procs s).
 Definition response (pr : proc) : list (coord * option Z) :=
   map (fun t => (t, src_of (p_src pr) t)) (p_req pr).
 
+(* The same with file sources read when the response is built: a tile loaded from the cache is an
+   ImageSource(location) that opens the file lazily, so a request that loaded an expired file and then found the tile
+   re-created (re-check under the lock) hands back the image the file holds by then.  In-memory images (upstream)
+   equal the file once stored.  c = the valid files when the response is built (any time after the request finished). *)
+Definition answer (c : list (coord * Z)) (pr : proc) (t : coord) : option Z :=
+  match src_of (p_src pr) t with
+  | Some v => Some (match lookup c t with Some w => w | None => v end)
+  | None => None
+  end.
+Definition response_in (c : list (coord * Z)) (pr : proc) : list (coord * option Z) :=
+  map (fun t => (t, answer c pr t)) (p_req pr).
+
 (* ------------------------------------------------------------------------------------------
    The grid part: MetaGrid.main_tile, _meta_size, _meta_tile_list / _create_tile_list,
    MetaTile.main_tile_coord, TileManager.lock. *)
@@ -360,7 +372,7 @@ Definition trace_ok_x (S : sys) (c0 oldl : list (coord * Z)) (reqs : list (list 
   | Some s =>
     let s' := settle S s (List.length reqs) in
     all_done s'
-    && list_eqb resp_eqb (map response (procs s')) resps
+    && list_eqb resp_eqb (map (response_in (cache s')) (procs s')) resps
     && files_sub S (cache s') final && known_sub (cache s') final && known_sub oldl final
     && list_eqb coord_eqb (rev (fetched s')) ups
     && match locks s' with [] => true | _ => false end
